@@ -490,7 +490,7 @@ NOTES = [n for n in NOTES if not n.startswith("WebP half pending")] + [
 
 
 def _is_w(line):
-    return line.startswith(("wmeter ", "tabmem "))
+    return line.startswith(("wmeter ", "wmeterrep ", "tabmem "))
 
 
 def area_of(line):
@@ -572,6 +572,23 @@ def wgen(run):
                 ch = name + W.le32(body_len)
             yield "wmeter lenient 1 %d 0:%s" % (total, (hdr + ch).hex()), "webp-huge-chunk-" + tag
             yield "wmeter strict 1 %d 0:%s" % (total, (hdr + ch).hex()), "webp-huge-chunk-" + tag
+    # files made of very many chunks: the peak heap is a constant, so it cannot grow with the number of animation frames (lossy and
+    # lossless), of unknown chunks after the image or inside a frame (built inside the harness: prefix ++ unit x count ++ suffix).
+    # The counts are chosen so that a growth of a few dozen bytes per chunk already exceeds the constant in the thorough tier.
+    for count in ((20000,) if quick else (20000, 1000000)):
+        units = [("frames-lossy", W.mk(b"ANMF", 1, 1), W.ANIM),
+                 ("frames-lossless", W.mk(b"ANMF", 1, 1, inner=W.mk(b"VP8L", 1, 1)), W.ANIM),
+                 ("frames-unknown-inside", W.mk(b"ANMF", 1, 1, inner=W.mk(b"VP8 ") + W.mk(b"UNKN") + W.mk(b"UNKN")), W.ANIM)]
+        for tag, unit, fl in units:
+            head = W.mk(b"VP8X", 1, 1, flags=fl) + W.mk(b"ANIM")
+            total = 4 + len(head) + len(unit) * count
+            pre = b"RIFF" + W.le32(total) + b"WEBP" + head
+            yield "wmeterrep lenient 1 %s %s %d -" % (pre.hex(), unit.hex(), count), "webp-many-" + tag
+        unk = W.mk(b"UNKN")
+        head = W.mk(b"VP8L", 1, 1)
+        pre = b"RIFF" + W.le32(4 + len(head) + len(unk) * count) + b"WEBP" + head
+        yield "wmeterrep lenient 1 %s %s %d -" % (pre.hex(), unk.hex(), count), "webp-many-unknown-trailing"
+        yield "wmeterrep strict 1 %s %s %d -" % (pre.hex(), unk.hex(), count), "webp-many-unknown-trailing"
     # garbage lossless bodies for the largest dimensions
     for _ in range(100 if quick else 3000):
         body = bytes(rng.randrange(256) for _ in range(rng.choice([8, 60, 300, 5000])))
